@@ -1,11 +1,29 @@
 // C14: every gRPC status code survives the unary HTTP mapping.
-// Total enumeration: codes x request-context state x renderer (server side,
-// then fed to the real client), and HTTP statuses 100..599 x header shapes.
+//
+// Total enumeration of
+//   - (code x request-context state x renderer x handler metadata x message x details)
+//     through the real server on a recorder, then the recorded reply through the real
+//     client once for EVERY list of call options the caller may pass (opts.go) and with
+//     the body intact / cut short;
+//   - HTTP statuses 100..599 x X-GRPC-Status shapes x reply metadata x details header x
+//     body x call options through the real client (unary Invoke), and the same statuses
+//     x shapes x call options through the real streaming client (NewStream), which
+//     derives its status with the same function;
+//   - (code x handler metadata x message x details x messages sent x call options) for a
+//     server-streaming method end to end (status in the body trailer).
+//
+// The oracle is the statement: the HTTP status of the table (499 rule), and the caller
+// recovers exactly the code (and message and details) the handler returned whenever
+// the reply carries X-GRPC-Status - whatever options it passed; without the header OK
+// for 2xx only. The options must not change the outcome, and grpc.Header/grpc.Trailer
+// variables receive the metadata the handler set (reference: grpc-go).
 package main
 
 import (
 	"context"
+	"encoding/base64"
 	"fmt"
+	"hash/fnv"
 	"io"
 	"net/http"
 	"net/http/httptest"
@@ -15,11 +33,16 @@ import (
 	"regexp"
 	"strconv"
 	"strings"
+	"sync/atomic"
+	"time"
 
 	"github.com/fullstorydev/grpchan/httpgrpc"
+	"google.golang.org/grpc"
 	"google.golang.org/grpc/codes"
+	"google.golang.org/grpc/metadata"
 	"google.golang.org/grpc/status"
 	"google.golang.org/protobuf/proto"
+	"google.golang.org/protobuf/types/known/anypb"
 	"google.golang.org/protobuf/types/known/wrapperspb"
 
 	"verif/seq/common"
@@ -43,18 +66,109 @@ type serverCase struct {
 	Kind      string `json:"kind"` // server
 	Code      uint32 `json:"code"`
 	Cancelled bool   `json:"cancelled"`
-	Renderer  string `json:"renderer"` // default | nothing | teapot
+	Renderer  string `json:"renderer"` // default | nothing | teapot (| found | nocontent in the thorough tier)
 	OKErr     bool   `json:"ok_err,omitempty"`
 	// Timeout is a GRPC-Timeout header to send ("" = none). "1n" has expired by the time
 	// the handler returns: the handler's context is then done although the request (the
 	// client) is still there, which must NOT trigger the 499 rule.
 	Timeout string `json:"timeout,omitempty"`
+	MD      string `json:"md,omitempty"`      // metadata the handler sets: "" | header | trailer | both
+	Msg     string `json:"msg,omitempty"`     // status message: "" = "msg" | empty | colon
+	Details int    `json:"details,omitempty"` // number of status details (0..2)
+	// Opts is the call-option list of the failing client call (replay only; nil = all lists)
+	Opts *optSet `json:"opts,omitempty"`
 }
 
 type clientCase struct {
-	Kind   string `json:"kind"` // client
-	HTTP   int    `json:"http"`
-	Header string `json:"header"` // "<absent>" or the X-GRPC-Status value
+	Kind    string  `json:"kind"` // client
+	HTTP    int     `json:"http"`
+	Header  string  `json:"header"`            // "<absent>" or the X-GRPC-Status value
+	MD      bool    `json:"md,omitempty"`      // reply carries H-Key and (unary) X-Grpc-Trailer-T-Key
+	Details bool    `json:"details,omitempty"` // reply carries one X-GRPC-Details value
+	Body    string  `json:"body,omitempty"`    // unary: "" = an encoded response | empty
+	Stream  bool    `json:"stream,omitempty"`  // through NewStream instead of Invoke
+	Opts    *optSet `json:"opts,omitempty"`
+}
+
+type streamCase struct {
+	Kind    string  `json:"kind"` // stream
+	Code    uint32  `json:"code"`
+	OKErr   bool    `json:"ok_err,omitempty"`
+	MD      string  `json:"md,omitempty"`
+	Msg     string  `json:"msg,omitempty"`
+	Details int     `json:"details,omitempty"`
+	NMsgs   int     `json:"nmsgs"` // messages the handler sends before returning
+	Opts    *optSet `json:"opts,omitempty"`
+}
+
+func msgText(id string) string {
+	switch id {
+	case "empty":
+		return ""
+	case "colon":
+		return "a:b: c"
+	}
+	return "msg"
+}
+
+func detailMsgs(n int) []proto.Message {
+	all := []proto.Message{wrapperspb.String("d1"), wrapperspb.Int32(2)}
+	return all[:n]
+}
+
+// handlerErr is what the handler of a case returns.
+func handlerErr(code uint32, okErr bool, msgID string, details int) error {
+	if okErr {
+		return okStatusErr{}
+	}
+	if code == 0 {
+		return nil
+	}
+	st := status.New(codes.Code(code), msgText(msgID))
+	if details > 0 {
+		sp := st.Proto()
+		for _, d := range detailMsgs(details) {
+			a, err := anypb.New(d)
+			if err != nil {
+				panic(err)
+			}
+			sp.Details = append(sp.Details, a)
+		}
+		st = status.FromProto(sp)
+	}
+	return st.Err()
+}
+
+// wantOf: what the caller must recover.
+func wantOf(code uint32, okErr bool, msgID string, details int) (codes.Code, string, []proto.Message) {
+	if okErr {
+		return codes.Internal, "ok?", nil // an error carrying OK must not become success
+	}
+	return codes.Code(code), msgText(msgID), detailMsgs(details)
+}
+
+// statusMismatch compares the caller's error with the status the handler returned.
+func statusMismatch(err error, wantCode codes.Code, wantMsg string, wantDetails []proto.Message) (string, string) {
+	if err == nil {
+		return "client-code", fmt.Sprintf("client=success want %v(%d)", wantCode, uint32(wantCode))
+	}
+	st, ok := status.FromError(err)
+	if !ok || st.Code() != wantCode {
+		return "client-code", fmt.Sprintf("client=%v(%d) %q want %v(%d)", status.Code(err), uint32(status.Code(err)), err.Error(), wantCode, uint32(wantCode))
+	}
+	if st.Message() != wantMsg {
+		return "client-message", fmt.Sprintf("client message=%q want %q", st.Message(), wantMsg)
+	}
+	got := st.Details()
+	bad := len(got) != len(wantDetails)
+	for i := 0; !bad && i < len(got); i++ {
+		m, ok := got[i].(proto.Message)
+		bad = !ok || !proto.Equal(m, wantDetails[i])
+	}
+	if bad {
+		return "client-details", fmt.Sprintf("client details=%v want %v", got, wantDetails)
+	}
+	return "", ""
 }
 
 func parseDocTable() (map[string]int, error) {
@@ -77,27 +191,46 @@ func parseDocTable() (map[string]int, error) {
 	return out, nil
 }
 
-func runServer(c serverCase) (httpStatus int, hdr http.Header, body []byte) {
-	var opts []httpgrpc.ServerOption
-	switch c.Renderer {
-	case "nothing":
-		opts = append(opts, httpgrpc.ErrorRenderer(func(context.Context, *status.Status, http.ResponseWriter) {}))
-	case "teapot":
-		opts = append(opts, httpgrpc.ErrorRenderer(func(_ context.Context, _ *status.Status, w http.ResponseWriter) { w.WriteHeader(418) }))
+type reply struct {
+	status int
+	hdr    http.Header
+	body   []byte
+}
+
+func rendererOpts(name string) []httpgrpc.ServerOption {
+	wr := func(code int) []httpgrpc.ServerOption {
+		return []httpgrpc.ServerOption{httpgrpc.ErrorRenderer(func(_ context.Context, _ *status.Status, w http.ResponseWriter) { w.WriteHeader(code) })}
 	}
-	srv := httpgrpc.NewServer(opts...)
+	switch name {
+	case "nothing":
+		return []httpgrpc.ServerOption{httpgrpc.ErrorRenderer(func(context.Context, *status.Status, http.ResponseWriter) {})}
+	case "teapot":
+		return wr(418)
+	case "found":
+		return wr(302)
+	case "nocontent":
+		return wr(204)
+	}
+	return nil
+}
+
+func runServer(c serverCase) reply {
+	srv := httpgrpc.NewServer(rendererOpts(c.Renderer)...)
 	svc := &common.Svc{Name: "t.S", Unary: map[string]common.UnaryFn{"M": func(ctx context.Context, dec func(interface{}) error) (interface{}, error) {
 		var in wrapperspb.StringValue
 		if err := dec(&in); err != nil {
 			return nil, err
 		}
-		if c.OKErr {
-			return nil, okStatusErr{}
+		if mdHasHeader(c.MD) {
+			grpc.SetHeader(ctx, metadata.Pairs("h-key", "h-val"))
+		}
+		if mdHasTrailer(c.MD) {
+			grpc.SetTrailer(ctx, metadata.Pairs("t-key", "t-val"))
 		}
 		if c.Timeout == "1n" {
 			<-ctx.Done() // the server-side deadline derived from GRPC-Timeout
 		}
-		if err := status.Error(codes.Code(c.Code), "msg"); err != nil {
+		if err := handlerErr(c.Code, c.OKErr, c.Msg, c.Details); err != nil {
 			return nil, err
 		}
 		return wrapperspb.String("resp"), nil
@@ -116,7 +249,7 @@ func runServer(c serverCase) (httpStatus int, hdr http.Header, body []byte) {
 	}
 	rec := httptest.NewRecorder()
 	srv.ServeHTTP(rec, req)
-	return rec.Code, rec.Header(), rec.Body.Bytes()
+	return reply{rec.Code, rec.Header(), rec.Body.Bytes()}
 }
 
 // errBody fails after delivering its bytes, like a connection that breaks between the
@@ -133,49 +266,50 @@ func (e *errBody) Read(p []byte) (int, error) {
 }
 func (e *errBody) Close() error { return nil }
 
-// clientSeesBroken: the reply's status line and headers arrive intact, the body is cut short.
-func clientSeesBroken(code int, hdr http.Header, body []byte) error {
-	u, _ := url.Parse("http://example.test/")
-	rt := common.RT(func(r *http.Request) (*http.Response, error) {
+// brokenRT: the reply's status line and headers arrive intact, the body is cut short.
+func brokenRT(rp reply) http.RoundTripper {
+	return common.RT(func(r *http.Request) (*http.Response, error) {
 		if r.Body != nil {
 			io.Copy(io.Discard, r.Body)
 			r.Body.Close()
 		}
 		h := http.Header{}
-		for k, v := range hdr {
+		for k, v := range rp.hdr {
 			h[k] = append([]string(nil), v...)
 		}
-		half := body[:len(body)/2]
-		return &http.Response{StatusCode: code, Status: http.StatusText(code), Proto: "HTTP/1.1", ProtoMajor: 1, ProtoMinor: 1,
-			Header: h, Body: &errBody{b: half}, Request: r, ContentLength: int64(len(body) + 64)}, nil
+		half := rp.body[:len(rp.body)/2]
+		return &http.Response{StatusCode: rp.status, Status: http.StatusText(rp.status), Proto: "HTTP/1.1", ProtoMajor: 1, ProtoMinor: 1,
+			Header: h, Body: &errBody{b: half}, Request: r, ContentLength: int64(len(rp.body) + 64)}, nil
 	})
-	ch := &httpgrpc.Channel{Transport: rt, BaseURL: u}
-	var out wrapperspb.StringValue
-	return ch.Invoke(context.Background(), "/t.S/M", wrapperspb.String("req"), &out)
 }
 
-func clientSees(code int, hdr http.Header, body []byte) error {
-	u, _ := url.Parse("http://example.test/")
-	ch := &httpgrpc.Channel{Transport: common.CannedRT(code, hdr, body), BaseURL: u}
-	var out wrapperspb.StringValue
-	return ch.Invoke(context.Background(), "/t.S/M", wrapperspb.String("req"), &out)
-}
+var baseURL, _ = url.Parse("http://example.test/")
 
-// checkServer returns "" when the case satisfies the property.
-func checkServer(c serverCase) (string, string) {
-	hs, hdr, body := runServer(c)
-	code := codes.Code(c.Code)
-	wantCode := code
-	if c.OKErr {
-		wantCode = codes.Internal // an error carrying OK must not become success
-	}
-	obs := fmt.Sprintf("http=%d x-grpc-status=%q", hs, hdr.Get("X-GRPC-Status"))
-	if code == codes.OK && !c.OKErr {
-		if hs != 200 {
-			return "ok-not-200", obs
+var progress int64 // bumped by every client call; the watchdog turns a hang into exit 2
+var current atomic.Value
+
+// invoke makes one unary call with the given option list through the real client.
+func invoke(rt http.RoundTripper, o optSet) (out string, h *optHandles, err error, panicked interface{}) {
+	atomic.AddInt64(&progress, 1)
+	h = o.build()
+	defer func() {
+		if p := recover(); p != nil {
+			panicked = p
 		}
-		if err := clientSees(hs, hdr, body); err != nil {
-			return "ok-call-failed", obs + " client=" + err.Error()
+	}()
+	ch := &httpgrpc.Channel{Transport: rt, BaseURL: baseURL}
+	var resp wrapperspb.StringValue
+	err = ch.Invoke(context.Background(), "/t.S/M", wrapperspb.String("req"), &resp, h.opts...)
+	return resp.Value, h, err, nil
+}
+
+// checkServerReply: the option-independent half, what is on the wire.
+func checkServerReply(c serverCase, rp reply) (string, string) {
+	wantCode, _, _ := wantOf(c.Code, c.OKErr, c.Msg, c.Details)
+	obs := fmt.Sprintf("http=%d x-grpc-status=%q", rp.status, rp.hdr.Get("X-GRPC-Status"))
+	if wantCode == codes.OK {
+		if rp.status != 200 {
+			return "ok-not-200", obs
 		}
 		return "", obs
 	}
@@ -187,37 +321,134 @@ func checkServer(c serverCase) (string, string) {
 		if c.Cancelled && (wantCode == codes.Canceled || wantCode == codes.DeadlineExceeded) {
 			want = 499
 		}
-		if hs != want {
+		if rp.status != want {
 			return "http-status", fmt.Sprintf("%s want %d", obs, want)
 		}
-		if hs < 400 {
+		if rp.status < 400 {
 			return "non-error-http-status", obs
 		}
-	}
-	err := clientSees(hs, hdr, body)
-	if got := status.Code(err); got != wantCode || err == nil {
-		return "client-code", fmt.Sprintf("%s client=%v(%d) want %d", obs, got, uint32(got), uint32(wantCode))
-	}
-	// the status travels in the headers: a body cut short afterwards must not replace the handler's code
-	err = clientSeesBroken(hs, hdr, body)
-	if got := status.Code(err); got != wantCode || err == nil {
-		return "client-code-with-broken-body", fmt.Sprintf("%s client=%v(%d) want %d", obs, got, uint32(got), uint32(wantCode))
 	}
 	return "", obs
 }
 
-func checkClient(c clientCase) (string, string) {
+// checkServerClient: the recorded reply through the real client, called with option list o.
+func checkServerClient(c serverCase, rp reply, o optSet) (string, string) {
+	wantCode, wantMsg, wantDetails := wantOf(c.Code, c.OKErr, c.Msg, c.Details)
+	obs := fmt.Sprintf("http=%d x-grpc-status=%q opts=%s", rp.status, rp.hdr.Get("X-GRPC-Status"), o)
+	out, h, err, pnc := invoke(common.CannedRT(rp.status, rp.hdr, rp.body), o)
+	if pnc != nil {
+		return "panic", fmt.Sprintf("%s panic=%v", obs, pnc)
+	}
+	if wantCode == codes.OK {
+		if err != nil {
+			return "ok-call-failed", obs + " client=" + err.Error()
+		}
+		if out != "resp" {
+			return "ok-wrong-response", fmt.Sprintf("%s response=%q", obs, out)
+		}
+		if cl, d := h.checkFilled(c.MD); cl != "" {
+			return cl, obs + " " + d
+		}
+		return "", obs
+	}
+	if cl, d := statusMismatch(err, wantCode, wantMsg, wantDetails); cl != "" {
+		return cl, obs + " " + d
+	}
+	if cl, d := h.checkFilled(c.MD); cl != "" {
+		return cl, obs + " " + d
+	}
+	// the status travels in the headers: a body cut short afterwards must not replace the handler's status
+	_, h, err, pnc = invoke(brokenRT(rp), o)
+	if pnc != nil {
+		return "panic-with-broken-body", fmt.Sprintf("%s panic=%v", obs, pnc)
+	}
+	if cl, d := statusMismatch(err, wantCode, wantMsg, wantDetails); cl != "" {
+		return cl + "-with-broken-body", obs + " " + d
+	}
+	if cl, d := h.checkFilled(c.MD); cl != "" {
+		return cl + "-with-broken-body", obs + " " + d
+	}
+	return "", obs
+}
+
+var detailHeader = func() string {
+	a, _ := anypb.New(wrapperspb.String("d1"))
+	b, _ := proto.Marshal(a)
+	return base64.RawURLEncoding.EncodeToString(b)
+}()
+
+// frame is one length-prefixed message of the streaming body; the last one (the
+// trailer) has a negative size.
+func frame(m proto.Message, last bool) []byte {
+	b, _ := proto.Marshal(m)
+	n := int32(len(b))
+	if last {
+		n = -n
+	}
+	return append([]byte{byte(uint32(n) >> 24), byte(uint32(n) >> 16), byte(uint32(n) >> 8), byte(uint32(n))}, b...)
+}
+
+func (c clientCase) replyHeader() http.Header {
 	hdr := http.Header{}
 	if c.Header != "<absent>" {
 		hdr.Set("X-GRPC-Status", c.Header)
 	}
+	if c.MD {
+		hdr.Set("H-Key", "h-val")
+		if !c.Stream {
+			hdr.Set("X-Grpc-Trailer-T-Key", "t-val")
+		}
+	}
+	if c.Details {
+		hdr.Set("X-GRPC-Details", detailHeader)
+	}
+	return hdr
+}
+
+// wantFromHeader: header shapes that carry a parseable code (all of them code 5). The
+// message is demanded only when the header carries one.
+func (c clientCase) wantFromHeader() (bool, func(error) string, []proto.Message) {
+	if c.Header != "5" && !strings.HasPrefix(c.Header, "5:") {
+		return false, nil, nil
+	}
+	var det []proto.Message
+	if c.Details {
+		det = detailMsgs(1)
+	}
+	if strings.HasPrefix(c.Header, "5:") {
+		return true, func(error) string { return c.Header[2:] }, det
+	}
+	return true, func(err error) string { return status.Convert(err).Message() }, det
+}
+
+func checkClient(c clientCase, o optSet) (string, string) {
+	if c.Stream {
+		return checkStreamClient(c, o)
+	}
 	body, _ := proto.Marshal(wrapperspb.String("resp"))
-	err := clientSees(c.HTTP, hdr, body)
-	obs := fmt.Sprintf("err=%v", err)
+	wantOut := "resp"
+	if c.Body == "empty" {
+		body, wantOut = nil, ""
+	}
+	out, h, err, pnc := invoke(common.CannedRT(c.HTTP, c.replyHeader(), body), o)
+	obs := fmt.Sprintf("opts=%s err=%v", o, err)
+	if pnc != nil {
+		return "panic", fmt.Sprintf("opts=%s panic=%v", o, pnc)
+	}
+	md := ""
+	if c.MD {
+		md = "both"
+	}
 	is2xx := c.HTTP >= 200 && c.HTTP < 300
-	if c.Header == "5" {
-		if status.Code(err) != codes.NotFound {
+	if ok, wantMsg, wantDet := c.wantFromHeader(); ok {
+		if status.Code(err) != codes.NotFound || err == nil {
 			return "header-code-ignored", obs
+		}
+		if cl, d := statusMismatch(err, codes.NotFound, wantMsg(err), wantDet); cl != "" {
+			return "header-" + strings.TrimPrefix(cl, "client-") + "-ignored", obs + " " + d
+		}
+		if cl, d := h.checkFilled(md); cl != "" {
+			return cl, obs + " " + d
 		}
 		return "", obs
 	}
@@ -227,25 +458,186 @@ func checkClient(c clientCase) (string, string) {
 	if !is2xx && (err == nil || status.Code(err) == codes.OK) {
 		return "non-2xx-ok", obs
 	}
+	if is2xx {
+		if out != wantOut {
+			return "2xx-wrong-response", fmt.Sprintf("%s response=%q", obs, out)
+		}
+		if cl, d := h.checkFilled(md); cl != "" {
+			return cl, obs + " " + d
+		}
+	}
 	return "", obs
+}
+
+func watchdog() {
+	last, idle := int64(-1), 0
+	for {
+		time.Sleep(5 * time.Second)
+		p := atomic.LoadInt64(&progress)
+		if p != last {
+			last, idle = p, 0
+			continue
+		}
+		if idle++; idle >= 6 {
+			fmt.Fprintf(os.Stderr, "INCONCLUSIVE: no progress for 30 s in case %v\n", current.Load())
+			os.Exit(2)
+		}
+	}
+}
+
+// reporter wrapper: one root cause fails many members of the product. The cases are
+// enumerated simplest first (handler metadata none, message "msg", no details, no call
+// options, ...), and for each group (the old grammar's case + clause) only the first,
+// i.e. simplest, failing member is reported; its fingerprint names the group and the
+// values of the new dimensions that were needed to make it fail.
+// keySet is a set of case keys, kept as 64-bit FNV-1a hashes (millions of members).
+type keySet map[uint64]struct{}
+
+func (k keySet) add(key string) {
+	h := fnv.New64a()
+	h.Write([]byte(key))
+	k[h.Sum64()] = struct{}{}
+}
+
+type collapser struct {
+	rep       *vlib.Reporter
+	seen      map[string]bool
+	collapsed int
+}
+
+func (k *collapser) report(group, extra, what string, replay interface{}) {
+	if k.seen[group] {
+		k.collapsed++
+		return
+	}
+	k.seen[group] = true
+	k.rep.Violation(group+extra, what, replay)
+}
+
+func extras(md, msg string, details int, o optSet) string {
+	s := ""
+	if md != "" {
+		s += "|md=" + md
+	}
+	if msg != "" && msg != "msg" {
+		s += "|msg=" + msg
+	}
+	if details > 0 {
+		s += fmt.Sprintf("|details=%d", details)
+	}
+	if o.weight() > 0 {
+		s += "|opts=" + o.String()
+	}
+	return s
+}
+
+func (c serverCase) group(clause string) string {
+	switch {
+	case c.OKErr:
+		return fmt.Sprintf("C14|server|okerr|cancelled=%v|%s", c.Cancelled, clause)
+	case c.Timeout != "":
+		return fmt.Sprintf("C14|server|code=%d|cancelled=%v|renderer=%s|timeout=%s|%s", c.Code, c.Cancelled, c.Renderer, c.Timeout, clause)
+	}
+	return fmt.Sprintf("C14|server|code=%d|cancelled=%v|renderer=%s|%s", c.Code, c.Cancelled, c.Renderer, clause)
+}
+
+func (c clientCase) group(clause string) string {
+	kind := "client"
+	if c.Stream {
+		kind = "stream-client"
+	}
+	if c.headerDecides(clause) {
+		return fmt.Sprintf("C14|%s|header=%s|%s", kind, c.Header, clause)
+	}
+	return fmt.Sprintf("C14|%s|http=%d|header=%s|%s", kind, c.HTTP, c.Header, clause)
+}
+
+// headerDecides: when the reply carries a parseable X-GRPC-Status the HTTP status is
+// irrelevant to what the caller must get, so failures of those clauses collapse over
+// the HTTP statuses (the simplest failing one is named in the fingerprint's tail).
+func (c clientCase) headerDecides(clause string) bool {
+	ok, _, _ := c.wantFromHeader()
+	return ok
+}
+
+func (c clientCase) extras(o optSet) string {
+	s := ""
+	if c.headerDecides("") {
+		s += fmt.Sprintf("|http=%d", c.HTTP)
+	}
+	if c.MD {
+		s += "|md"
+	}
+	if c.Details {
+		s += "|details"
+	}
+	if c.Body != "" {
+		s += "|body=" + c.Body
+	}
+	return s + extras("", "", 0, o)
 }
 
 func main() {
 	rep := vlib.NewReporter("C14")
+	go watchdog()
+	optSets := allOptSets()
+	thorough := vlib.Tier() == "thorough"
+	// the synthetic-reply sweeps (500 statuses each) use, in the quick tier, every subset
+	// of the four option kinds plus the doubled Header / Trailer lists (19 of the 36)
+	sweepSets := optSets
+	if !thorough {
+		sweepSets = nil
+		for _, o := range optSets {
+			if (o.H <= 1 && o.T <= 1) || (!o.Peer && !o.Creds && o.H != 1 && o.T != 1) {
+				sweepSets = append(sweepSets, o)
+			}
+		}
+	}
+
 	if p := common.Arg("replay"); p != "" {
 		var probe struct {
-			Kind string `json:"kind"`
+			Kind string  `json:"kind"`
+			Opts *optSet `json:"opts"`
 		}
 		common.LoadReplay(p, &probe)
+		sets := optSets
+		if probe.Opts != nil {
+			sets = []optSet{*probe.Opts}
+		}
 		var clause, obs string
-		if probe.Kind == "server" {
+		switch probe.Kind {
+		case "server":
 			var c serverCase
 			common.LoadReplay(p, &c)
-			clause, obs = checkServer(c)
-		} else {
+			rp := runServer(c)
+			clause, obs = checkServerReply(c, rp)
+			for _, o := range sets {
+				if clause != "" {
+					break
+				}
+				clause, obs = checkServerClient(c, rp, o)
+			}
+		case "client":
 			var c clientCase
 			common.LoadReplay(p, &c)
-			clause, obs = checkClient(c)
+			for _, o := range sets {
+				if clause, obs = checkClient(c, o); clause != "" {
+					break
+				}
+			}
+		case "stream":
+			var c streamCase
+			common.LoadReplay(p, &c)
+			for _, o := range sets {
+				if clause, obs = checkStream(c, o); clause != "" {
+					break
+				}
+			}
+		case "doc":
+			clause, obs = checkDoc(nil)
+		default:
+			fmt.Fprintln(os.Stderr, "INCONCLUSIVE: unknown replay kind", probe.Kind)
+			os.Exit(2)
 		}
 		fmt.Println("replay:", clause, obs)
 		if clause != "" {
@@ -256,89 +648,269 @@ func main() {
 	}
 
 	evals := 0
-	distinct := map[string]bool{}
+	distinct := keySet{}
 	var samples []interface{}
+	col := &collapser{rep: rep, seen: map[string]bool{}}
+
+	t0 := time.Now()
+	lap := func(name string) {
+		if os.Getenv("VERIF_DEBUG") != "" {
+			fmt.Fprintf(os.Stderr, "phase %s done at %.1fs evals=%d\n", name, time.Since(t0).Seconds(), evals)
+		}
+	}
 
 	// the documented table, parsed from the current tree, against the checker's copy
-	doc, err := parseDocTable()
-	if err != nil {
+	if _, err := parseDocTable(); err != nil {
 		fmt.Fprintln(os.Stderr, "INCONCLUSIVE:", err)
 		os.Exit(2)
 	}
-	for c, want := range table {
-		evals++
-		if got, ok := doc[c.String()]; !ok || got != want {
-			rep.Violation(fmt.Sprintf("C14|doc-table|%s", c), fmt.Sprintf("documented table says %s -> %d (present=%v), checker's copy says %d", c, got, ok, want),
-				map[string]interface{}{"kind": "doc", "code": c.String()})
-		}
-	}
-	if len(doc) != len(table) {
-		rep.Violation("C14|doc-table|size", fmt.Sprintf("documented table has %d rows, expected %d", len(doc), len(table)), map[string]interface{}{"kind": "doc"})
-	}
+	evals += len(table)
+	checkDoc(rep)
 
 	var codeList []uint32
 	for c := uint32(0); c <= 17; c++ {
 		codeList = append(codeList, c)
 	}
 	codeList = append(codeList, 99, 1000, 1<<31-1, 1<<31, 3000000000, 1<<32-1)
-	for _, code := range codeList {
-		for _, cancelled := range []bool{false, true} {
-			for _, r := range []string{"default", "nothing", "teapot"} {
-				c := serverCase{Kind: "server", Code: code, Cancelled: cancelled, Renderer: r}
-				evals++
-				clause, obs := checkServer(c)
-				if code != 0 {
-					distinct[fmt.Sprintf("srv|%d|%v|%s", code, cancelled, r)] = true
-				}
-				if len(samples) < 4 && code%5 == 1 {
-					samples = append(samples, map[string]interface{}{"case": c, "observed": obs})
-				}
-				if clause != "" {
-					rep.Violation(fmt.Sprintf("C14|server|code=%d|cancelled=%v|renderer=%s|%s", code, cancelled, r, clause), clause+": "+obs, c)
+	renderers := []string{"default", "nothing", "teapot"}
+	if thorough {
+		for c := uint32(18); c <= 64; c++ {
+			codeList = append(codeList, c)
+		}
+		codeList = append(codeList, 255, 256, 65535, 65536, 1<<31+5, 1<<32-2)
+		renderers = append(renderers, "found", "nocontent")
+	}
+	mds := []string{"", "header", "trailer", "both"}
+	msgs := []string{"msg", "empty", "colon"}
+
+	// one server case: the reply once, then the client once per option list
+	doServer := func(c serverCase, key string) {
+		current.Store(fmt.Sprintf("%+v", c))
+		rp := runServer(c)
+		evals++
+		nontrivial := c.Code != 0 || c.OKErr
+		clause, obs := checkServerReply(c, rp)
+		if clause != "" {
+			col.report(c.group(clause), extras(c.MD, c.Msg, c.Details, optSet{}), clause+": "+obs, c)
+			return
+		}
+		for _, o := range optSets {
+			evals++
+			clause, obs := checkServerClient(c, rp, o)
+			if nontrivial {
+				distinct.add(key + "|" + o.String())
+			}
+			if len(samples) < 6 && c.Code%5 == 1 && c.MD == "both" && c.Details == 1 && o.H == 1 && o.T == 1 && !o.Peer && !o.Creds && !c.Cancelled {
+				samples = append(samples, map[string]interface{}{"case": c, "opts": o.String(), "observed": obs})
+			}
+			if clause != "" {
+				o := o
+				cc := c
+				cc.Opts = &o
+				col.report(c.group(clause), extras(c.MD, c.Msg, c.Details, o), clause+": "+obs, cc)
+			}
+		}
+	}
+
+	// simplest first: the new dimensions at their base value (the old grammar), then the rest
+	for pass := 0; pass < 2; pass++ {
+		for _, code := range codeList {
+			for _, cancelled := range []bool{false, true} {
+				for _, r := range renderers {
+					for _, md := range mds {
+						for _, msg := range msgs {
+							for det := 0; det <= 2; det++ {
+								base := md == "" && msg == "msg" && det == 0
+								if base != (pass == 0) {
+									continue
+								}
+								if code == 0 && !base && (msg != "msg" || det != 0) {
+									continue // a success has no message or details
+								}
+								c := serverCase{Kind: "server", Code: code, Cancelled: cancelled, Renderer: r, MD: md, Msg: msg, Details: det}
+								if msg == "msg" {
+									c.Msg = ""
+								}
+								doServer(c, fmt.Sprintf("srv|%d|%v|%s|%s|%s|%d", code, cancelled, r, md, msg, det))
+							}
+						}
+					}
 				}
 			}
 		}
 	}
+	lap("unary server->client")
 	// server-side deadline (GRPC-Timeout) expired, or far away, while the request itself is alive or cancelled
 	for _, code := range []uint32{1, 4, 5} {
 		for _, cancelled := range []bool{false, true} {
 			for _, to := range []string{"1n", "1H"} {
-				c := serverCase{Kind: "server", Code: code, Cancelled: cancelled, Renderer: "default", Timeout: to}
-				evals++
-				distinct[fmt.Sprintf("srv|%d|%v|timeout=%s", code, cancelled, to)] = true
-				if clause, obs := checkServer(c); clause != "" {
-					rep.Violation(fmt.Sprintf("C14|server|code=%d|cancelled=%v|renderer=default|timeout=%s|%s", code, cancelled, to, clause), clause+": "+obs, c)
+				for _, md := range []string{"", "both"} {
+					c := serverCase{Kind: "server", Code: code, Cancelled: cancelled, Renderer: "default", Timeout: to, MD: md}
+					doServer(c, fmt.Sprintf("srv|%d|%v|timeout=%s|%s", code, cancelled, to, md))
 				}
 			}
 		}
 	}
 	for _, cancelled := range []bool{false, true} {
-		c := serverCase{Kind: "server", Code: 0, Cancelled: cancelled, Renderer: "default", OKErr: true}
-		evals++
-		distinct[fmt.Sprintf("srv|okerr|%v", cancelled)] = true
-		if clause, obs := checkServer(c); clause != "" {
-			rep.Violation(fmt.Sprintf("C14|server|okerr|cancelled=%v|%s", cancelled, clause), clause+": "+obs, c)
+		for _, r := range renderers {
+			for _, md := range []string{"", "both"} {
+				c := serverCase{Kind: "server", Code: 0, Cancelled: cancelled, Renderer: r, OKErr: true, MD: md}
+				doServer(c, fmt.Sprintf("srv|okerr|%v|%s|%s", cancelled, r, md))
+			}
 		}
 	}
-	for hs := 100; hs <= 599; hs++ {
-		for _, h := range []string{"<absent>", "", "x:y", ":", "5"} {
-			c := clientCase{Kind: "client", HTTP: hs, Header: h}
+
+	// synthetic replies through the real client
+	headers := []string{"<absent>", "", "x:y", ":", "5", "5:a:b: c"}
+	doClient := func(c clientCase) {
+		current.Store(fmt.Sprintf("%+v", c))
+		for _, o := range sweepSets {
 			evals++
-			clause, obs := checkClient(c)
-			distinct[fmt.Sprintf("cli|%d|%s", hs, h)] = true
-			if len(samples) < 8 && hs%137 == 0 && h == "<absent>" {
-				samples = append(samples, map[string]interface{}{"case": c, "observed": obs})
+			clause, obs := checkClient(c, o)
+			distinct.add(fmt.Sprintf("cli|%v|%d|%s|%v|%v|%s|%s", c.Stream, c.HTTP, c.Header, c.MD, c.Details, c.Body, o))
+			if len(samples) < 10 && c.HTTP%137 == 0 && c.Header == "<absent>" && c.MD && !c.Details && c.Body == "" && o.H == 1 && o.T == 1 && !o.Peer && !o.Creds {
+				samples = append(samples, map[string]interface{}{"case": c, "opts": o.String(), "observed": obs})
 			}
 			if clause != "" {
-				rep.Violation(fmt.Sprintf("C14|client|http=%d|header=%s|%s", hs, h, clause), clause+": "+obs, c)
+				o := o
+				cc := c
+				cc.Opts = &o
+				col.report(c.group(clause), c.extras(o), clause+": "+obs, cc)
 			}
 		}
 	}
+	for pass := 0; pass < 2; pass++ {
+		for hs := 100; hs <= 599; hs++ {
+			for _, h := range headers {
+				for _, md := range []bool{false, true} {
+					for _, det := range []bool{false, true} {
+						for _, body := range []string{"", "empty"} {
+							base := !md && !det && body == ""
+							if base != (pass == 0) {
+								continue
+							}
+							doClient(clientCase{Kind: "client", HTTP: hs, Header: h, MD: md, Details: det, Body: body})
+						}
+					}
+				}
+			}
+		}
+	}
+	lap("unary synthetic replies")
+	// the streaming client derives its status from the reply with the same function
+	for hs := 100; hs <= 599; hs++ {
+		for _, h := range headers {
+			for _, md := range []bool{false, true} {
+				for _, det := range []bool{false, true} {
+					if det && !thorough && h != "5" && h != "5:a:b: c" {
+						continue // quick tier: the details header only where it must be recovered
+					}
+					doClient(clientCase{Kind: "client", HTTP: hs, Header: h, MD: md, Details: det, Stream: true})
+				}
+			}
+		}
+	}
+
+	lap("streaming synthetic replies")
+	// server-streaming method end to end: the status travels in the body trailer
+	streamCodes := codeList
+	for pass := 0; pass < 2; pass++ {
+		for _, code := range streamCodes {
+			for _, md := range mds {
+				for _, msg := range msgs {
+					for det := 0; det <= 2; det++ {
+						for n := 0; n <= 1; n++ {
+							base := md == "" && msg == "msg" && det == 0 && n == 0
+							if base != (pass == 0) {
+								continue
+							}
+							if code == 0 && (msg != "msg" || det != 0) {
+								continue
+							}
+							c := streamCase{Kind: "stream", Code: code, MD: md, Msg: msg, Details: det, NMsgs: n}
+							if msg == "msg" {
+								c.Msg = ""
+							}
+							current.Store(fmt.Sprintf("%+v", c))
+							for _, o := range optSets {
+								evals++
+								clause, obs := checkStream(c, o)
+								if code != 0 {
+									distinct.add(fmt.Sprintf("str|%d|%s|%s|%d|%d|%s", code, md, msg, det, n, o))
+								}
+								if len(samples) < 13 && code%7 == 2 && md == "both" && det == 1 && n == 1 && o.H == 1 && o.T == 1 && !o.Peer && !o.Creds {
+									samples = append(samples, map[string]interface{}{"case": c, "opts": o.String(), "observed": obs})
+								}
+								if clause != "" {
+									o := o
+									cc := c
+									cc.Opts = &o
+									col.report(fmt.Sprintf("C14|stream|code=%d|%s", code, clause), extras(md, c.Msg, det, o)+fmt.Sprintf("|nmsgs=%d", n), clause+": "+obs, cc)
+								}
+							}
+						}
+					}
+				}
+			}
+		}
+	}
+	for _, md := range []string{"", "both"} {
+		c := streamCase{Kind: "stream", OKErr: true, MD: md}
+		current.Store(fmt.Sprintf("%+v", c))
+		for _, o := range optSets {
+			evals++
+			distinct.add(fmt.Sprintf("str|okerr|%s|%s", md, o))
+			if clause, obs := checkStream(c, o); clause != "" {
+				o := o
+				cc := c
+				cc.Opts = &o
+				col.report("C14|stream|okerr|"+clause, extras(md, "", 0, o), clause+": "+obs, cc)
+			}
+		}
+	}
+
+	lap("streaming end to end")
 	os.Exit(rep.Finish("exploration", map[string]interface{}{
 		"evaluations":         evals,
 		"distinct_nontrivial": len(distinct),
-		"rule":                "total enumeration of (gRPC code 0..17,99,2^31-1) x (request context live/cancelled) x (default / empty / 418 renderer) through the real server on a recorder and then the real client; plus every HTTP status 100..599 x 5 X-GRPC-Status shapes through the real client. A case is non-trivial when it reaches the error renderer or the status-derivation path (everything except the plain OK reply); distinct by its parameters.",
-		"samples":             samples,
-		"exhaustive":          true,
-	}, []string{"net/http itself is not exercised: server on httptest.ResponseRecorder, client on a canned RoundTripper"}))
+		"option_lists":        len(optSets),
+		"option_lists_sweeps": len(sweepSets),
+		"collapsed_failures":  col.collapsed,
+		"rule": fmt.Sprintf("total enumeration. (a) unary, server then client: (%d gRPC codes: 0..17, 99, 1000, 2^31-1, 2^31, 3e9, 2^32-1%s) x (request context live/cancelled) x (%d renderers: %s) x (handler sets no metadata / header / trailer / both) x (message \"msg\" / empty / with colons) x (0..2 status details) through the real server on a recorder [plus GRPC-Timeout expired/far x cancelled x 3 codes, and an error carrying OK x renderers], and every recorded reply through the real client once for EACH of the %d call-option lists {0,1,2 grpc.Header} x {0,1,2 grpc.Trailer} x {grpc.Peer or not} x {grpc.PerRPCCredentials or not}, body intact and cut short. (b) unary, synthetic replies: every HTTP status 100..599 x 6 X-GRPC-Status shapes (absent, \"\", \"x:y\", \":\", \"5\", \"5:a:b: c\") x reply metadata present or not x X-GRPC-Details present or not x body (encoded response / empty) x %d option lists (quick tier: every subset of the four option kinds plus the doubled Header/Trailer lists, 19; thorough: all 36) through Invoke. (c) the same statuses x shapes x metadata (x details header%s) x the same option lists through NewStream with a well-formed framed body. (d) server-streaming method end to end through the real server and client: codes x handler metadata x message x details x (0 or 1 message sent first) x option lists, plus an error carrying OK. Oracle: documented HTTP status (499 rule); the caller gets exactly the handler's code, message and details whenever X-GRPC-Status is present, under every option list; without it OK for 2xx only; grpc.Header/grpc.Trailer variables hold the handler's h-key/t-key. A case is non-trivial when it reaches the error renderer or the status-derivation path (everything except the plain OK reply of (a)/(d)); distinct by all its parameters including the option list. Failures are reported once per (old-grammar case, clause) under the simplest failing member; the rest are counted in collapsed_failures.",
+			len(codeList), map[bool]string{true: ", 18..64, 255, 256, 65535, 65536, 2^31+5, 2^32-2", false: ""}[thorough], len(renderers), strings.Join(renderers, "/"), len(optSets), len(sweepSets), map[bool]string{true: "", false: " only where a code is parseable"}[thorough]),
+		"samples":    samples,
+		"exhaustive": true,
+	}, []string{
+		"net/http itself is not exercised: server on httptest.ResponseRecorder, client on a canned RoundTripper (streaming end to end: the handler runs inside RoundTrip, the reply is complete when it returns)",
+		"call options the channel ignores (WaitForReady, MaxCall*MsgSize, CallContentSubtype, ...) are not part of the option dimension",
+		"the JSON unary content type is not enumerated (the real client never sends it)",
+	}))
+}
+
+// checkDoc compares the documented table with the checker's copy; with a reporter it
+// reports, without one it returns the first difference (replay).
+func checkDoc(rep *vlib.Reporter) (string, string) {
+	doc, err := parseDocTable()
+	if err != nil {
+		return "doc-table", err.Error()
+	}
+	first, firstObs := "", ""
+	note := func(fp, what string, code string) {
+		if first == "" {
+			first, firstObs = "doc-table", what
+		}
+		if rep != nil {
+			rep.Violation(fp, what, map[string]interface{}{"kind": "doc", "code": code})
+		}
+	}
+	for c := codes.Code(1); c <= 16; c++ {
+		want := table[c]
+		if got, ok := doc[c.String()]; !ok || got != want {
+			note(fmt.Sprintf("C14|doc-table|%s", c), fmt.Sprintf("documented table says %s -> %d (present=%v), checker's copy says %d", c, got, ok, want), c.String())
+		}
+	}
+	if len(doc) != len(table) {
+		note("C14|doc-table|size", fmt.Sprintf("documented table has %d rows, expected %d", len(doc), len(table)), "")
+	}
+	return first, firstObs
 }
